@@ -426,3 +426,251 @@ def gen_fol_ops(rng, desc, n_ops=(2, 10)):
         else:
             ops.append(("infer", rng.choice([1, 2, 20])))
     return ops
+
+
+# ------------------------------------------------------------------ store programs (C14 / C15)
+
+def val_token(v):
+    """('F','TRUE') | ('B',1) | ('N',Fr) | ('T',[Fr..]) | ('O',kind) -> protocol token"""
+    k = v[0]
+    if k == "F":
+        return "F:" + v[1]
+    if k == "B":
+        return "B:%d" % v[1]
+    if k == "N":
+        return "N:" + q(v[1])
+    if k == "T":
+        return "T:" + ",".join(q(x) for x in v[1])
+    return "O"
+
+
+def val_py(L, v):
+    k = v[0]
+    if k == "F":
+        return getattr(L.Fact, v[1])
+    if k == "B":
+        return bool(v[1])
+    if k == "N":
+        return float(v[1])
+    if k == "T":
+        return tuple(float(x) for x in v[1])
+    return {"str": "TRUE", "int": 1, "none": None, "list": [0.0, 1.0]}[v[1]]
+
+
+def val_bounds(v):
+    """the bounds a VALID value denotes (None if invalid), independent of the model"""
+    k = v[0]
+    if k == "F":
+        return {"TRUE": (ONE, ONE), "FALSE": (ZERO, ZERO), "UNKNOWN": (ZERO, ONE), "CONTRADICTION": (ONE, ZERO)}[v[1]]
+    if k == "B":
+        return (ONE, ONE) if v[1] else (ZERO, ZERO)
+    if k == "N":
+        return (v[1], v[1]) if 0 <= v[1] <= 1 else None
+    if k == "T":
+        xs = v[1]
+        return (xs[0], xs[1]) if len(xs) == 2 and all(0 <= x <= 1 for x in xs) else None
+    return None
+
+
+def run_store_program(prog):
+    """ops: ('sadd', target, mode, payload) target = id | 'absent' | 'nonformula'; mode single|dict
+            ('flush',) ('resetb',) ('get', id, g) ('state', id, g) ('infer', k) ('world', id, w)"""
+    import impl
+    L = impl.lnn()
+    impl.take_log()
+    kb = FolKB(prog["kb"])
+    lines = kb.header_lines()
+    out = ["ok"] * len(lines)
+    meta = {"ids": list(kb.order), "errors": [], "registered": sorted(kb.registered_ids()), "judgements": []}
+    ids = lambda l: ",".join(map(str, l)) if l else "-"
+    absent = L.Predicate("Absent", arity=1)
+    wmap = {"open": L.World.OPEN, "closed": L.World.CLOSED, "axiom": L.World.AXIOM}
+    # what the harness knows independently of any model: asserted data and current world per formula
+    asserted = {i: {} for i in kb.order}
+    world = {i: tuple(Fr(float(x)) for x in kb.obj[i].world) for i in kb.order}
+    bq = lambda b: [q(b[0]), q(b[1])]
+
+    def snap():
+        lines.append(kb.tab_line())
+        out.append(kb.tab_out())
+
+    snap()
+    for op in prog["ops"]:
+        impl.take_log()
+        try:
+            if op[0] == "sadd":
+                _, target, mode, payload = op
+                if mode == "single":
+                    arg = val_py(L, payload)
+                    argtxt = val_token(payload)
+                else:
+                    arg = {kb.cname(tuple(g)): val_py(L, v) for g, v in payload}
+                    argtxt = ";".join(f"{gtxt(tuple(g))}={val_token(v)}" for g, v in payload) or "-"
+                if target == "absent":
+                    key, idtxt = absent, "99"
+                elif target == "nonformula":
+                    key, idtxt = "P0", "-"
+                else:
+                    key, idtxt = kb.obj[target], str(target)
+                before = kb.table(target) if isinstance(target, int) else None
+                try:
+                    kb.model.add_data({key: arg})
+                    res = "ok"
+                except Exception as e:
+                    name = type(e).__name__
+                    res = "e " + (name if name in ("TypeError", "IndexError", "Exception", "KeyError") else "Other:" + name)
+                lines.append(f"sadd {idtxt} {mode} {argtxt}")
+                out.append(res)
+                if isinstance(target, int):
+                    after = kb.table(target)
+                    is_prop = bool(kb.obj[target].propositional)
+                    entries = [((), payload)] if mode == "single" else [(tuple(g), v) for g, v in payload]
+                    expected = [(gtxt(g), val_token(v), None if val_bounds(v) is None else bq(val_bounds(v))) for g, v in entries]
+                    valid = all(e[2] is not None for e in expected) and ((mode == "single") == is_prop)
+                    meta["judgements"].append({"kind": "add", "op": lines[-1], "res": res, "target": target, "valid": valid,
+                                               "entries": expected,
+                                               "before": {gtxt(g): bq(b) for g, b in before.items()},
+                                               "after": {gtxt(g): bq(b) for g, b in after.items()}})
+                    if res == "ok":
+                        for g, v in entries:
+                            if val_bounds(v) is not None:
+                                asserted[target][g] = val_bounds(v)
+                else:
+                    meta["judgements"].append({"kind": "add-foreign", "op": lines[-1], "res": res, "target": target})
+            elif op[0] == "flush":
+                kb.model.flush()
+                lines.append("fflush"); out.append("ok")
+                for i in kb.order:          # a propositional formula forgets its data on flush
+                    if kb.obj[i].propositional:
+                        asserted[i] = {}
+            elif op[0] == "resetb":
+                kb.model.reset_bounds()
+                lines.append("fresetb"); out.append("ok")
+                for i in kb.order:
+                    if type(kb.obj[i]).__name__ in ("Forall", "Exists") and not kb.obj[i].propositional:
+                        continue
+                    t = kb.table(i)
+                    meta["judgements"].append({"kind": "reset", "target": i, "world": bq(world[i]),
+                                               "asserted": {gtxt(g): bq(b) for g, b in asserted[i].items()},
+                                               "table": {gtxt(g): bq(b) for g, b in t.items()}})
+            elif op[0] == "get":
+                o = kb.obj[op[1]]
+                g = tuple(op[2])
+                before = len(o.grounding_table) if not o.propositional else 0
+                d = (o.get_data(kb.cname(g)) if g else o.get_data()).detach().reshape(-1).tolist()
+                after = len(o.grounding_table) if not o.propositional else 0
+                lines.append(f"fget {op[1]} {gtxt(g)}")
+                out.append(f"b {q(Fr(d[0]))},{q(Fr(d[1]))}" + ("" if before == after else " CREATED-ROW"))
+                meta["judgements"].append({"kind": "get", "target": op[1], "g": gtxt(g), "got": [q(Fr(d[0])), q(Fr(d[1]))],
+                                           "created": before != after, "world": bq(world[op[1]]),
+                                           "known": (g in kb.table(op[1])) if g else True})
+            elif op[0] == "state":
+                o = kb.obj[op[1]]
+                g = tuple(op[2])
+                try:
+                    st = (o.state(kb.cname(g)) if g else o.state()).name
+                except Exception as e:
+                    st = "EXC:" + type(e).__name__
+                lines.append(f"fstate {op[1]} {gtxt(g)}")
+                out.append("s " + st)
+            elif op[0] == "world":
+                w = op[2]
+                kb.obj[op[1]].reset_world(wmap[w])
+                lo, hi = WORLDS[w]
+                world[op[1]] = (lo, hi)
+                if kb.obj[op[1]].propositional:
+                    asserted[op[1]] = {}
+                lines.append(f"fworld {op[1]} {q(lo)},{q(hi)}"); out.append("ok")
+            elif op[0] == "infer":
+                steps, r = kb.model.infer(max_steps=op[1])
+                log = impl.take_log()
+                ups, downs = kb.calls(log, "upward"), kb.calls(log, "downward")
+                per_u, per_d = len(ups) // max(steps, 1), len(downs) // max(steps, 1)
+                lines.append(f"finfer {EPS} {op[1]} {ids(meta['registered'])} {ids(ups[:per_u])} {ids(downs[:per_d])}")
+                out.append(f"n {steps} {q(impl.amount(r))}")
+            else:
+                raise ValueError(op)
+        except Exception as e:
+            meta["errors"].append(f"{op}: {type(e).__name__}: {str(e)[:200]}")
+            break
+        snap()
+    return {"lines": lines, "impl": out, "meta": meta}
+
+
+def gen_store_program(rng, malformed_p=0.3):
+    """a small mixed KB (predicates of arity 1-2 under each world, a first-order connective, a Not, a
+    fully quantified Forall) and a random op sequence over it"""
+    w = lambda: rng.choice(["open", "closed", "axiom"])
+    preds = [{"id": 0, "arity": 1, "world": w()}, {"id": 1, "arity": 2, "world": w()}, {"id": 2, "arity": 1, "world": w()}]
+    nodes = [{"id": 3, "kind": rng.choice(["and", "or", "implies"]), "ops": [[0, ["x"]], [1, ["x", "y"]]]},
+             {"id": 4, "kind": "not", "ops": [[2, ["x"]]]},
+             {"id": 5, "kind": rng.choice(["forall", "exists"]), "ops": [[2, ["x"]]], "qvars": ["x"]}]
+    if rng.random() < 0.4:
+        nodes[0]["world"] = w()
+    desc = {"preds": preds, "nodes": nodes, "roots": [3, 4, 5]}
+    arity = {0: 1, 1: 2, 2: 1, 3: 2, 4: 1, 5: 0}
+    nc = 3
+
+    def rand_g(i):
+        return [rng.randrange(nc) for _ in range(arity[i])]
+
+    def good_val():
+        r = rng.random()
+        if r < 0.3:
+            return ("F", rng.choice(["TRUE", "FALSE", "UNKNOWN", "TRUE", "CONTRADICTION"]))
+        if r < 0.45:
+            return ("B", rng.randint(0, 1))
+        if r < 0.65:
+            return ("N", Fr(rng.randint(0, 8), 8))
+        a, b = Fr(rng.randint(0, 8), 8), Fr(rng.randint(0, 8), 8)
+        return ("T", [min(a, b), max(a, b)])
+
+    def bad_val():
+        r = rng.random()
+        if r < 0.25:
+            return ("N", rng.choice([Fr(3, 2), Fr(-1, 4), Fr(9, 8), Fr(2)]))
+        if r < 0.5:
+            return ("T", rng.choice([[Fr(1, 2)], [], [Fr(0), Fr(1, 2), Fr(1)], [Fr(-1, 8), Fr(1, 2)], [Fr(1, 2), Fr(5, 4)]]))
+        return ("O", rng.choice(["str", "int", "none", "list"]))
+
+    ops = []
+    for _ in range(rng.randint(4, 14)):
+        r = rng.random()
+        if r < 0.6:
+            target = rng.choice([0, 1, 2, 0, 1, 2, 3, 4, 5])
+            is_prop = target == 5
+            mal = rng.random() < malformed_p
+            if mal and rng.random() < 0.2:
+                ops.append(("sadd", rng.choice(["absent", "nonformula"]), "single", good_val()))
+            elif is_prop:
+                if mal and rng.random() < 0.3:
+                    ops.append(("sadd", target, "dict", [([0], good_val())]))
+                else:
+                    ops.append(("sadd", target, "single", bad_val() if mal else good_val()))
+            else:
+                if mal and rng.random() < 0.3:
+                    ops.append(("sadd", target, "single", good_val()))
+                else:
+                    n = rng.randint(1, 3)
+                    gs = []
+                    while len(gs) < n:
+                        g = rand_g(target)
+                        if g not in gs:
+                            gs.append(g)
+                    entries = [(g, good_val()) for g in gs]
+                    if mal:
+                        k = rng.randrange(len(entries))
+                        entries[k] = (entries[k][0], bad_val())
+                    ops.append(("sadd", target, "dict", entries))
+        elif r < 0.68:
+            ops.append(("flush",))
+        elif r < 0.78:
+            ops.append(("resetb",))
+        elif r < 0.9:
+            i = rng.choice([0, 1, 2, 3, 4, 5])
+            ops.append((rng.choice(["get", "state"]), i, rand_g(i)))
+        elif r < 0.95:
+            ops.append(("infer", rng.choice([1, 2, 10])))
+        else:
+            ops.append(("world", rng.choice([0, 1, 2]), w()))
+    return {"kb": desc, "ops": ops}
